@@ -11,7 +11,7 @@ def run(ck):
                "ACL slot i = rule at position i, link band, binned counts, login counts; absent components and components of a node that is not ON read "
                "as defaults); evaluations = steps checked")
     coq_props(ck)
-    gen_tie.check(ck, ["obs"])
+    gen_tie.check(ck, ["obs", "nmneobs"])
     from lib.common import coq_cases
     coq_in = []
     c02.leaf_cases(ck, coq_in)
